@@ -265,3 +265,112 @@ Proof.
   rewrite syndrome_valid by (apply human_body_length; exact HL).
   rewrite N.lxor_0_l. apply pattern_nonzero; assumption.
 Qed.
+
+(** ** character level: any replacement character that does not denote the
+    same digit — other digit, other alphabet's different digit, non-alphabet
+    character, CR/LF — is rejected *)
+Definition keep (c : N) : bool := negb (is_crlf c).
+
+Lemma parse_human_some cs ds :
+  b64_digits true (filter keep (map plus_slash cs)) = Some ds ->
+  parse_human cs = parse_human_digits ds.
+Proof.
+  intros H. unfold parse_human, b64url_decode_string, parse_human_digits.
+  change (fun c => negb (is_crlf c)) with keep. rewrite H.
+  destruct (len_mod4 ds); reflexivity.
+Qed.
+
+Lemma parse_human_none cs :
+  b64_digits true (filter keep (map plus_slash cs)) = None -> parse_human cs = Err EOther.
+Proof.
+  intros H. unfold parse_human, b64url_decode_string.
+  change (fun c => negb (is_crlf c)) with keep. rewrite H. reflexivity.
+Qed.
+
+Lemma b64_digits_app url a : forall b,
+  b64_digits url (a ++ b)
+  = match b64_digits url a, b64_digits url b with
+    | Some x, Some y => Some (x ++ y)
+    | _, _ => None
+    end.
+Proof.
+  induction a as [|c a IH]; intros b; cbn [app b64_digits].
+  - destruct (b64_digits url b); reflexivity.
+  - rewrite IH. destruct (b64_digit url c); [|reflexivity].
+    destruct (b64_digits url a); [|reflexivity].
+    destruct (b64_digits url b); reflexivity.
+Qed.
+
+Lemma b64_digit_lt url c d : b64_digit url c = Some d -> d < 64.
+Proof.
+  unfold b64_digit. intros H.
+  destruct ((65 <=? c) && (c <=? 90)) eqn:E1.
+  { apply andb_prop in E1. destruct E1 as [A B]. apply N.leb_le in A, B. injection H as <-. lia. }
+  destruct ((97 <=? c) && (c <=? 122)) eqn:E2.
+  { apply andb_prop in E2. destruct E2 as [A B]. apply N.leb_le in A, B. injection H as <-. lia. }
+  destruct ((48 <=? c) && (c <=? 57)) eqn:E3.
+  { apply andb_prop in E3. destruct E3 as [A B]. apply N.leb_le in A, B. injection H as <-. lia. }
+  destruct (c =? (if url then 45 else 43)); [injection H as <-; lia|].
+  destruct (c =? (if url then 95 else 47)); [injection H as <-; lia|discriminate].
+Qed.
+
+Lemma set_nth_split {A} (x : A) l : forall i, (i < length l)%nat ->
+  set_nth i x l = firstn i l ++ x :: skipn (S i) l.
+Proof.
+  induction l as [|h t IH]; intros i H; cbn [length] in H; [lia|].
+  destruct i as [|i]; cbn [set_nth firstn skipn app]; [reflexivity|].
+  f_equal. apply IH. lia.
+Qed.
+
+Lemma printed_digits url ds : digits_ok ds ->
+  b64_digits true (filter keep (map plus_slash (map (b64_char url) ds))) = Some ds.
+Proof. apply decode_string_print. Qed.
+
+Lemma single_char_rejected tab url b t wc addr i c' :
+  tab = crc16_table_ref -> length addr = 32%nat -> bytes_ok addr -> (i < 48)%nat ->
+  b64_digit true (plus_slash c') <> Some (nth i (human_digits tab b t wc addr) 0) ->
+  parse_human (set_nth i c' (print_human tab url b t wc addr)) = Err EOther.
+Proof.
+  intros Ht HL Ha Hi Hne. unfold print_human.
+  set (ds := human_digits tab b t wc addr) in *.
+  pose proof (human_bytes_length tab b t wc addr HL) as H36.
+  assert (Hlen : length ds = 48%nat).
+  { unfold ds, human_digits. rewrite (b64_enc_length _ 12) by (rewrite H36; reflexivity). reflexivity. }
+  assert (HD : digits_ok ds) by (apply b64_enc_digits_ok, human_bytes_ok; assumption).
+  assert (HD1 : digits_ok (firstn i ds)).
+  { unfold digits_ok in *. rewrite Forall_forall in *. intros x Hx. apply HD.
+    rewrite <- (firstn_skipn i ds). apply in_or_app. left. exact Hx. }
+  assert (HD2 : digits_ok (skipn (S i) ds)).
+  { unfold digits_ok in *. rewrite Forall_forall in *. intros x Hx. apply HD.
+    rewrite <- (firstn_skipn (S i) ds). apply in_or_app. right. exact Hx. }
+  rewrite set_nth_split by (rewrite map_length; lia).
+  rewrite firstn_map, skipn_map.
+  set (digs := b64_digits true (filter keep (map plus_slash
+     (map (b64_char url) (firstn i ds) ++ c' :: map (b64_char url) (skipn (S i) ds))))).
+  assert (Hdigs : digs =
+    match (if keep (plus_slash c') then
+             match b64_digit true (plus_slash c') with Some d => Some [d] | None => None end
+           else Some []) with
+    | Some m => Some (firstn i ds ++ m ++ skipn (S i) ds)
+    | None => None
+    end).
+  { unfold digs. rewrite map_app, filter_app. cbn [map filter].
+    rewrite b64_digits_app, printed_digits by exact HD1.
+    destruct (keep (plus_slash c')).
+    - cbn [b64_digits]. rewrite printed_digits by exact HD2.
+      destruct (b64_digit true (plus_slash c')); reflexivity.
+    - rewrite printed_digits by exact HD2. reflexivity. }
+  destruct (keep (plus_slash c')).
+  - destruct (b64_digit true (plus_slash c')) as [d'|] eqn:Ed.
+    + rewrite (parse_human_some _ _ Hdigs). cbn [app].
+      rewrite <- set_nth_split by lia.
+      apply single_digit_rejected; try assumption.
+      * eapply b64_digit_lt; exact Ed.
+      * fold ds. congruence.
+    + apply parse_human_none. exact Hdigs.
+  - rewrite (parse_human_some _ _ Hdigs). cbn [app].
+    unfold parse_human_digits.
+    destruct (len_mod4 (firstn i ds ++ skipn (S i) ds)) eqn:E; [|reflexivity].
+    apply len_mod4_spec in E. destruct E as [k Hk].
+    rewrite app_length, firstn_length, skipn_length, Hlen in Hk. lia.
+Qed.
